@@ -29,6 +29,7 @@ Proof.
     destruct (g_rows _ _ _ _ _ G o' k H K) as [v [Hw Hv]]. exists v. split; auto.
     unfold updN. destruct (Nat.eqb_spec o' o); subst; auto.
   - intros o'. destruct (U o') as [A1 [B1 _]]. rewrite A1, B1. apply (g_new _ _ _ _ _ G).
+  - intros o' H. destruct (U o') as [_ [_ [C1 _]]]. rewrite C1. eapply g_newd; eauto.
   - intros o' H. destruct (U o') as [_ [_ [_ D1]]]. rewrite D1. eapply g_del; eauto.
   - apply (g_nodup _ _ _ _ _ G).
   - intros o' k Hn K A D. destruct (U o') as [A1 [B1 [C1 D1]]]. rewrite A1 in K. rewrite B1 in A. rewrite C1 in D.
@@ -55,7 +56,7 @@ Proof.
   intros g f ob n sn sd W o [GG _] G R Ho Hk Hi.
   destruct (oin (ob o)) eqn:E; auto. exfalso.
   destruct (expunged f sn o) eqn:Ee.
-  - destruct (r_exp _ _ _ _ _ _ _ R o Ho Ee). congruence.
+  - pose proof (r_exp _ _ _ _ _ _ _ R o Ho Ee). congruence.
   - destruct (r_id _ _ _ _ _ _ _ R o Ho Ee) as [A B].
     destruct (g_in _ _ _ _ _ G o E) as [_ [Ha [Hd Hkk]]].
     destruct (B Hk) as [B1 C].
@@ -76,7 +77,7 @@ Proof.
                           odelf (updN ob o x o') = odelf (ob o') /\ oin (updN ob o x o') = oin (ob o'))).
   { intros o'. unfold updN. destruct (Nat.eqb_spec o' o); subst; auto. }
   pose proof R as R0.
-  destruct R as [r_n0 r_exp0 r_id0 r_fresh0 r_row0 r_delv0 r_ks0 r_del0 r_lists0 r_dirty0 r_keep0]. constructor; auto.
+  destruct R as [r_n0 r_exp0 r_id0 r_fresh0 r_row0 r_delv0 r_ks0 r_del0 r_lists0 r_ksu0 r_dirty0 r_keep0]. constructor; auto.
   - intros o' Ho He. destruct (r_id0 o' Ho He) as [A B]. destruct (U o') as [A1 [B1 [C1 D1]]].
     unfold pkey, pdelf in *. rewrite A1, B1, C1. auto.
   - intros o' H1 H2. destruct (U o') as [A1 [B1 [C1 D1]]]. rewrite B1, D1. auto.
